@@ -217,7 +217,7 @@ func (vc *FuncVC) atExit(st *State, fr *frame, res []Value) {
 			}
 		}
 	}
-	vc.frameObligations(st, fmt.Sprintf("exit%d", exitNo))
+	vc.frameObligations(st, vc.entry, fmt.Sprintf("exit%d", exitNo))
 	if exitNo <= 8 {
 		vc.emitCover(st, fmt.Sprintf("canary.exit%d", exitNo), "exit is reachable (assert false must not be provable)", pos)
 	}
@@ -280,7 +280,7 @@ type frameGoal struct {
 }
 
 // frameGoals computes, for every heap whose current version differs from the entry version, the frame condition.
-func (vc *FuncVC) frameGoals(st *State) []frameGoal {
+func (vc *FuncVC) frameGoals(st *State, base *State) []frameGoal {
 	type modInfo struct {
 		whole bool
 		ats   []Term
@@ -318,7 +318,7 @@ func (vc *FuncVC) frameGoals(st *State) []frameGoal {
 	var out []frameGoal
 	for _, name := range sortedKeys(st.heaps) {
 		cur := st.heaps[name]
-		init, ok := vc.entry.heaps[name]
+		init, ok := base.heaps[name]
 		if !ok {
 			init = vc.sc.Const("H."+name+".0", cur.Sort)
 		}
@@ -337,14 +337,13 @@ func (vc *FuncVC) frameGoals(st *State) []frameGoal {
 			goal = Eq(cur, init)
 		} else {
 			r := Term{"r!frame", SRef}
-			var guard []Term
+			// objects that existed when the function was entered may change only if listed; objects allocated by the
+			// function itself are its own business (the caller sees them only through the postcondition)
+			guard := []Term{Select(vc.entry.alloc, r)}
 			if mi != nil {
-				// listed objects of a listed heap: nothing else may change, not even in fresh objects
 				for _, a := range mi.ats {
 					guard = append(guard, Not(Eq(r, a)))
 				}
-			} else {
-				guard = append(guard, Select(vc.entry.alloc, r))
 			}
 			body := Implies(And(guard...), Eq(Select(cur, r), Select(init, r)))
 			goal = Term{fmt.Sprintf("(forall ((r!frame Ref)) (! %s :pattern ((select %s r!frame))))", body.S, cur.S), SBool}
@@ -355,8 +354,8 @@ func (vc *FuncVC) frameGoals(st *State) []frameGoal {
 }
 
 // frameObligations: every heap changed on this path must be covered by a modifies clause.
-func (vc *FuncVC) frameObligations(st *State, where string) {
-	for _, fg := range vc.frameGoals(st) {
+func (vc *FuncVC) frameObligations(st *State, base *State, where string) {
+	for _, fg := range vc.frameGoals(st, base) {
 		vc.emit(st, vc.uniqueName(fmt.Sprintf("frame.%s@%s", shortName(fg.heap), where)), "frame", nil, fg.goal, "heap "+shortName(fg.heap)+" is unchanged except where the contract's modifies clause allows", vc.fn.Pos())
 	}
 }
@@ -375,7 +374,9 @@ func (vc *FuncVC) execBlock(st *State, b *ssa.BasicBlock, prev *ssa.BasicBlock) 
 			// back edge: the invariant must be re-established
 			vc.evalPhis(st, b, prev)
 			vc.checkInvariant(st, li, "keep", ol)
-			vc.frameObligations(st, fmt.Sprintf("loop%d", li.ordinal))
+			if ol.entry != nil {
+				vc.frameObligations(st, ol.entry, fmt.Sprintf("loop%d", li.ordinal))
+			}
 			panic(pathEnd{})
 		}
 		// loop entry
@@ -511,6 +512,7 @@ func (vc *FuncVC) uniqueName(base string) string {
 
 func (vc *FuncVC) havocLoop(st *State, li *loopInfo) {
 	fr := st.fr
+	pre := st.snapshot()
 	// registers: header phis
 	for _, in := range li.header.Instrs {
 		phi, ok := in.(*ssa.Phi)
@@ -555,10 +557,11 @@ func (vc *FuncVC) havocLoop(st *State, li *loopInfo) {
 		vc.havocAlloc(st)
 	}
 	// the function's frame is an implicit loop invariant (checked at every back edge and exit)
-	for _, fg := range vc.frameGoals(st) {
+	// (relative to the state in which the loop was entered)
+	for _, fg := range vc.frameGoals(st, pre) {
 		st.assume(fg.goal)
 	}
-	fr.open[li.header] = &openLoop{}
+	fr.open[li.header] = &openLoop{entry: pre}
 }
 
 func (vc *FuncVC) havocAlloc(st *State) {
@@ -649,10 +652,12 @@ func (vc *FuncVC) execFrom(st *State, b *ssa.BasicBlock, i int) {
 			}
 			var fv Value
 			fv = vc.get(st, x.Call.Value)
+			vc.pointAsserts(st, b, x, false, nil)
 			vc.execCall(st, &x.Call, fv, args, x.Pos(), func(st *State, res Value) {
 				if res != nil {
 					vc.set(st, x, res)
 				}
+				vc.pointAsserts(st, b, x, true, res)
 				vc.execFrom(st, b, j+1)
 			})
 			return
@@ -1146,9 +1151,9 @@ func (vc *FuncVC) execBinOp(st *State, x *ssa.BinOp) Value {
 	}
 	switch x.Op {
 	case token.ADD:
-		return wrap(Add(at, bt), x.Type())
+		return wrap1(Add(at, bt), x.Type())
 	case token.SUB:
-		return wrap(Sub(at, bt), x.Type())
+		return wrap1(Sub(at, bt), x.Type())
 	case token.MUL:
 		return wrap(Mul(at, bt), x.Type())
 	case token.QUO:
@@ -1645,6 +1650,110 @@ func (vc *FuncVC) subtypeObligations(st *State, fr *frame) {
 				}
 				vc.emit(st2, vc.uniqueName("subtype.modifies."+shortName(mt.name)), "subtype", nil, goal, "heap "+shortName(mt.name)+" modified by the implementation is declared by the interface contract", fr.fn.Pos())
 			}
+		}
+	}
+}
+
+// calleeShort returns the short name of the callee of a call ("Back", "getValueIndex", "eval").
+func calleeShort(c *ssa.CallCommon) string {
+	if c.IsInvoke() {
+		return c.Method.Name()
+	}
+	switch f := c.Value.(type) {
+	case *ssa.Function:
+		return f.Name()
+	case *ssa.Builtin:
+		return f.Name()
+	case *ssa.MakeClosure:
+		return f.Fn.Name()
+	}
+	return ""
+}
+
+// pointAsserts proves and then assumes the `assert before/after Callee#k` hints attached to this call.
+func (vc *FuncVC) pointAsserts(st *State, b *ssa.BasicBlock, call *ssa.Call, after bool, res Value) {
+	fr := st.fr
+	if fr.spec == nil || len(fr.spec.Asserts) == 0 {
+		return
+	}
+	name := calleeShort(&call.Call)
+	if name == "" {
+		return
+	}
+	// ordinal of this call among the calls to the same callee, in block order
+	nth := 0
+	found := false
+	for _, bb := range fr.fn.Blocks {
+		for _, in := range bb.Instrs {
+			if c, ok := in.(*ssa.Call); ok && calleeShort(&c.Call) == name {
+				nth++
+				if c == call {
+					found = true
+					break
+				}
+			}
+		}
+		if found {
+			break
+		}
+	}
+	for i, as := range fr.spec.Asserts {
+		if as.After != after || as.Callee != name || as.Nth != nth {
+			continue
+		}
+		env := &Env{vc: vc, st: st, old: vc.entry, vars: map[string]TV{}, pkg: fr.fn.Pkg.Pkg}
+		for n, lr := range vc.localNamesAt(fr.fn, b, call) {
+			v, ok := fr.regs[lr.v]
+			if !ok {
+				continue
+			}
+			func() {
+				defer func() {
+					if r := recover(); r != nil {
+						if _, ok := r.(trError); ok {
+							return
+						}
+						panic(r)
+					}
+				}()
+				if lr.isAddr {
+					pt, isPtr := lr.v.Type().Underlying().(*types.Pointer)
+					if !isPtr {
+						return
+					}
+					save := st.pc
+					val := vc.load(st, v, pt.Elem())
+					st.pc = save
+					env.vars[n] = env.valueTV(val, pt.Elem())
+					return
+				}
+				env.vars[n] = env.valueTV(v, lr.v.Type())
+			}()
+		}
+		if len(fr.spec.Params) > 0 {
+			for k, p := range fr.fn.Params {
+				if k < len(fr.spec.Params) {
+					env.vars[fr.spec.Params[k]] = env.valueTV(fr.regs[p], p.Type())
+				}
+			}
+		}
+		if after && res != nil {
+			if tv, ok := res.(TupleVal); ok {
+				for k, v := range tv {
+					env.vars[fmt.Sprintf("$r%d", k)] = env.valueTV(v, call.Type().(*types.Tuple).At(k).Type())
+				}
+			} else {
+				env.vars["$r"] = env.valueTV(res, call.Type())
+			}
+		}
+		nm := as.C.Name
+		if nm == "" {
+			nm = fmt.Sprintf("%d", i+1)
+		}
+		goal := env.asBool(env.tr(as.C.E))
+		for _, g := range splitConj(goal, as.C.E, env) {
+			vc.emit(st, vc.uniqueName("assert#"+nm+g.suffix), "assert", as.C.Tags, g.t, as.C.Src, call.Pos())
+			st.assume(g.t)
 		}
 	}
 }
